@@ -68,3 +68,20 @@ Proof.
   destruct (pool_wp (k_step ok) _ tt sched pool f j _ Hj Hok) as (t'' & Hj'' & (s & Hm & _)).
   rewrite Hj' in Hj''. injection Hj'' as <-. eapply mon_run_class. rewrite Hm. discriminate.
 Qed.
+
+(** Race-closed error freedom lifts to pools: a participant that has finished,
+    and whose every received response was in the race class, returned no I/O error. *)
+From Kismet Require Import Proofs.RaceFree.
+Definition race_free_in_any_pool {A} (p : prog (outcome A)) : Prop :=
+  forall (o : oracle) (f0 f : fs) (pool : list (thread (outcome A))) (j : nat) (sched : list nat) (t' : thread (outcome A)) r,
+    nth_error pool j = Some (fst (th_start p o f0)) ->
+    nth_error (fst (run_sched sched (pool, f))) j = Some t' ->
+    th_prog t' = Ret r ->
+    mon_run r_step true (th_trace t') = Some true -> no_io_error r.
+Lemma rf_pool {A} (p : prog (outcome A)) : rf p no_io_error -> race_free_in_any_pool p.
+Proof.
+  intros H o f0 f pool j sched t' r Hj Hj' Hret Hclean.
+  pose proof (th_start_ok r_step p _ true o f0 (H true)) as Hok.
+  destruct (pool_wp_finished r_step _ true sched pool f j _ Hj Hok t' r Hj' Hret) as (s & Hm & Hq).
+  rewrite Hclean in Hm. injection Hm as <-. apply Hq. reflexivity.
+Qed.
